@@ -293,6 +293,10 @@ class Report:
             return False
         if any(v["signature"] == signature for v in self.violations):
             return True
+        if len(self.violations) >= 12:
+            # enough replay files; keep counting
+            self.violations.append({"signature": signature, "path": None, "what": what, "no_input": no_input})
+            return True
         d = os.path.join(ROOT, "replays", self.prop)
         os.makedirs(d, exist_ok=True)
         body = {"property": self.prop, "signature": signature, "what": what, "replay": replay,
